@@ -108,22 +108,22 @@ def netJ (kinds : List String) (n : XNet CNet) : Json :=
          ("ing", worldJ n.g.2.1),
          ("route", optJ RV.Drv.Gateway.rulesJ n.g.2.2)]
 
-def outJ (kinds : List String) (o : XOut CNet) : Json :=
+def outJ (kinds : List String) (a0 : Api) (o : XOut CNet) : Json :=
   if o.panic then mkObj [("panic", boolJ true)]
   else mkObj [("done", boolJ o.done), ("err", boolJ o.err), ("net", netJ kinds o.net),
               ("mem", RV.Drv.Traffic.memToJson o.mem), ("touched", boolJ o.touched), ("recheck", boolJ o.recheck),
-              ("writes", arrJ (o.writes.map strJ))]
+              ("writes", arrJ (o.writes.map strJ)), ("readFailed", boolJ (readFailed a0 o.a))]
 
 /-- the implementation's answer, read back for the oracles -/
 def outOf (canary : String) (j : Json) : R (XOut CNet) := do
   let n ← netOf canary (← jget j "net")
   return { done := ← fBool j "done", err := ← fBool j "err", net := n.net,
            mem := ← RV.Drv.Traffic.memOfJson (← jget j "mem"), touched := ← fBool j "touched",
-           recheck := ← fBool j "recheck", writes := ← (← fArrD j "writes").mapM jstr, b := none }
+           recheck := ← fBool j "recheck", writes := ← (← fArrD j "writes").mapM jstr, a := Api.ok }
 
 /-! ### the model run -/
 
-def runCall (call : String) (P : Option (Provider Strat CNet)) (c : XCtx Strat) (b : Budget) (n : XNet CNet) (m : Mem) :
+def runCall (call : String) (P : Option (Provider Strat CNet)) (c : XCtx Strat) (b : Api) (n : XNet CNet) (m : Mem) :
     Option (XOut CNet) :=
   match call with
   | "patchStableService" => some (patchStableServiceX c b n m)
@@ -162,13 +162,13 @@ def handleCall (inp impl : Json) : R OpResult := do
   let n := nin.net
   let kinds := nin.refs.map (·.kind)
   let m ← RV.Drv.Traffic.memOfJson (← jget inp "mem")
-  let b : Budget ← fOptNat inp "failAt"
+  let b : Api := { w := ← fOptNat inp "failAt", r := ← fOptNat inp "failGet" }
   let P := mkProvider p
   let trace := jgetD inp "trace" .null
   let streak0 ← (match jopt trace "streak" with | none => pure 0 | some v => jnat v)
   -- a round made while a grace period is still running (or under an injected fault) is not a round of the count
   let waiting := c.lastUpdate == .fresh || m.patchService == .fresh || m.restoreService == .fresh ||
-    m.restoreGateway == .fresh || m.removeCanaryService == .fresh || m.updateRoute == .fresh || b.isSome
+    m.restoreGateway == .fresh || m.removeCanaryService == .fresh || m.updateRoute == .fresh || b.w.isSome || b.armed
   let streak := if waiting then 0 else streak0
   -- the hypotheses of `doTRX_converges`: the stable Service exists and the revisions are known
   let healthy := n.stableExists && (c.noGen || (c.stableRev != "" && c.canaryRev != ""))
@@ -198,7 +198,8 @@ def handleCall (inp impl : Json) : R OpResult := do
     (match pin.ingress with | some cls => [s!"class:{cls}"] | none => []) ++
     (if pin.custom then [sizeTag "customRefs" kinds.length] ++ (kinds.map fun k => s!"ref:{k}").eraseDups else []) ++
     (if c.disableGen then ["disableGen"] else []) ++ (if c.onlyTR then ["onlyTR"] else []) ++
-    (if c.hasRef then [] else ["noRef"]) ++ (if b.isSome then ["fault"] else []) ++
+    (if c.hasRef then [] else ["noRef"]) ++ (if b.w.isSome then ["fault:write"] else []) ++
+    (if b.armed then ["fault:read"] else []) ++
     (if s.rhm.isSome then ["rhm"] else []) ++
     (if c.hasRevKey then [] else ["guard:noRevKey"]) ++ (if gSame then ["guard:sameServiceGateway"] else []) ++
     (if gOutside then ["route:outside-inv"] else []) ++
@@ -213,7 +214,7 @@ def handleCall (inp impl : Json) : R OpResult := do
   | some o =>
     let modelled := shapesModelled p nin.refs [cuStrategy s, cuStrategy sAll]
     if !modelled then tags := tags ++ ["shape:unmodelled"]
-    let model := if modelled then outJ kinds o else Json.null
+    let model := if modelled then outJ kinds b o else Json.null
     if (jopt impl "panic").isSome then
       return { model := model, holds := [("C03.x_no_panic", false), ("C04.x_no_panic", false), ("C05.x_no_panic", false),
                                         ("C07.x_no_panic", false)], tags := tags ++ ["panic"] }
@@ -231,6 +232,11 @@ def handleCall (inp impl : Json) : R OpResult := do
       | some v => do pure (some (← netOf p.canary v)))
     let mut holds : List (String × Bool) := []
     holds := holds ++ [("C05.x_frame", frameX call n io)]
+    -- a read that failed with a non-NotFound error (reported by the harness' client) is reported by the call
+    let iReadFailed ← fBool impl "readFailed"
+    if iReadFailed then tags := tags ++ ["readFailed"]
+    holds := holds ++ [("C05.x_read_fault_reported", readFaultReportedX iReadFailed io),
+                       ("C06.x_read_fault_reported", readFaultReportedX iReadFailed io)]
     -- provider-specific specs of the members, judged on the implementation's objects
     let specs (st : Strat) : List (String × Bool) :=
       (if p.custom then [("C15.x_routed", cuSpecB p.codec st g'.1)] ++
@@ -249,7 +255,7 @@ def handleCall (inp impl : Json) : R OpResult := do
       holds := holds ++ [("C03.x_done_means_routed", doneMeansRoutedX c step sp io),
                          ("C03.x_services_before_routes", servicesBeforeRoutesX c n io && (providerTouched io.writes || sameG kinds io.net n)),
                          ("C04.x_services_before_routes", servicesBeforeRoutesX c n io && (providerTouched io.writes || sameG kinds io.net n)),
-                         ("C07.x_fixed_point", fixedPointX (prevDone && b.isNone) same m io),
+                         ("C07.x_fixed_point", fixedPointX (prevDone && b.w.isNone && !b.armed) same m io),
                          ("C07.x_converges", convergesX (if healthy then streak else 0) 6 io)]
       if !p.custom then holds := holds ++ [("C07.x_done_no_write", doneNoWriteX same m io)]
       if io.done && c.hasRef && step then
@@ -275,7 +281,7 @@ def handleCall (inp impl : Json) : R OpResult := do
     if call == "finalisingTrafficRouting" then
       holds := holds ++ [("C04.x_finalising_order", finalisingOrderX c clean io),
                          ("C05.x_finalising_order", finalisingOrderX c clean io),
-                         ("C07.x_fixed_point", fixedPointX (prevDone && b.isNone) same m io),
+                         ("C07.x_fixed_point", fixedPointX (prevDone && b.w.isNone && !b.armed) same m io),
                          ("C07.x_converges", convergesX streak 10 io)]
     if call == "finalisingTrafficRouting" || call == "restoreGateway" then
       let complete := c.hasRef && !io.err && (if call == "restoreGateway" then !io.done else io.done)
